@@ -199,8 +199,9 @@ pub fn exec(song: &mut Song, tokens: &Vec<Token>) -> bool {
                 trk!(song).qlen = trk!(song).qlen + (song.q_add * t.value_i);
             },
             TokenType::OctaveOnce => {
-                trk!(song).octave = value_range(0, trk!(song).octave + t.value_i, 10);
-                song.flags.octave_once += t.value_i;
+                let before = trk!(song).octave;
+                trk!(song).octave = value_range(0, before + t.value_i, 10);
+                song.flags.octave_once += trk!(song).octave - before; // only what was applied is taken back after the note
             },
             TokenType::QLen => {
                 trk!(song).q_on_note = None;
